@@ -470,14 +470,20 @@ Qed.
    when the ids are distinct, which is the domain the model mirrors the code on (the hypothesis is not used by the proof) *)
 Definition distinct_ids (hs : list trak_h) : Prop := NoDup (map (fun h => ti_id (th_trak h)) hs).
 
-Lemma crop_end_to_end file zeof startPos large payloadLen hs ms rest pre et ets shifted ranges ks swm outf :
+(* what is needed of writeMdat on the input mdat m: when it succeeds on ranges inside the file, it wrote a 32-bit header and
+   exactly the bytes of the ranges *)
+Definition mdat_writes (file : list N) (zeof : bool) (m : C08Model.mdat) (rs : list (N * N)) : Prop :=
+  forall mb, write_mdat file zeof m rs = Ok mb ->
+    ranges_len rs + 8 < 4294967296 /\ mb = C08Model.be32 (ranges_len rs + 8) ++ C08Model.name_mdat ++ out_bytes file rs.
+
+Lemma crop_end_to_end_gen file zeof m hs ms rest pre et ets shifted ranges ks swm outf :
   Forall (trak_wf file) (map th_trak hs) -> distinct_ids hs ->
   4611686018427387904 + 2 * total_bytes (map th_trak hs) < 18446744073709551616 ->
-  0 < payloadLen -> lenN file < 9223372036854775808 ->
   crop_mp4_file hs ms rest = Ok (et, ets, (shifted, ranges, ks, swm)) ->
   lenN pre = rest + sumN (map stbl_var_size shifted) ->
   lenN pre + mdat_out_hdr + 2 * total_bytes (map th_trak hs) < 18446744073709551616 ->
-  crop_mp4_output file zeof (C08Model.mdat_lazy startPos large payloadLen) pre ranges = Ok outf ->
+  (Forall (range_in file) ranges -> ranges_len ranges + 8 < 18446744073709551616 -> mdat_writes file zeof m ranges) ->
+  crop_mp4_output file zeof m pre ranges = Ok outf ->
   exists ref hdr, ref_choice hs ref /\ ets = ti_ts ref /\ swm = lenN pre /\
     first_sync_from (ti_tb ref) (u64 (ms * ti_ts ref) / 1000) et /\
     outf = pre ++ hdr ++ out_bytes file ranges /\
@@ -485,7 +491,7 @@ Lemma crop_end_to_end file zeof startPos large payloadLen hs ms rest pre et ets 
     lenN (out_bytes file ranges) + 8 < 4294967296 /\
     Forall2 (out_track file outf (lenN pre) (lenN (out_bytes file ranges)) et ets) (map th_trak hs) shifted.
 Proof.
-  intros Hwf _ HB Hp Hf Hrun Hpre HB2 Hout.
+  intros Hwf _ HB Hrun Hpre HB2 Hw Hout.
   set (hdr := C08Model.be32 (lenN (out_bytes file ranges) + 8) ++ C08Model.name_mdat).
   assert (Hh : lenN hdr = mdat_out_hdr) by reflexivity.
   destruct (crop_mp4_file_correct file hs ms rest pre hdr et ets shifted ranges ks swm Hwf HB Hrun Hpre Hh HB2)
@@ -502,11 +508,72 @@ Proof.
     pose proof (trak_ends_pre file _ et0 (ti_ts rf) ts0 Hwf Ends) as Hpre'.
     apply (crop_to_time_payload_le file _ et0 (ti_ts rf) swm0 sh rg ks0 Hpre' ltac:(lia) Hct). }
   unfold crop_mp4_output in Hout.
-  destruct (write_mdat file zeof (C08Model.mdat_lazy startPos large payloadLen) ranges) as [mb| | |] eqn:Ew; try discriminate.
+  destruct (write_mdat file zeof m ranges) as [mb| | |] eqn:Ew; try discriminate.
   cbn [rbind] in Hout. injection Hout as <-.
   pose proof (out_bytes_len file ranges E) as Hlen.
-  destruct (write_mdat_lazy_inv file zeof startPos large payloadLen ranges mb Hp Hf E ltac:(rewrite <- Hlen; lia) Ew) as [Hlt Hmb].
+  destruct (Hw E ltac:(rewrite <- Hlen; lia) mb Ew) as [Hlt Hmb].
   exists ref, hdr. split; [exact A|]. split; [exact B|]. split; [exact C|]. split; [exact D|].
   rewrite Hmb, <- Hlen. split; [unfold hdr; rewrite <- app_assoc; reflexivity|]. split; [reflexivity|]. split; [lia|].
   unfold hdr in F. rewrite <- app_assoc in F. exact F.
+Qed.
+
+(* the tool's mode: the input mdat decoded lazily *)
+Lemma crop_end_to_end file zeof startPos large payloadLen hs ms rest pre et ets shifted ranges ks swm outf :
+  Forall (trak_wf file) (map th_trak hs) -> distinct_ids hs ->
+  4611686018427387904 + 2 * total_bytes (map th_trak hs) < 18446744073709551616 ->
+  0 < payloadLen -> lenN file < 9223372036854775808 ->
+  crop_mp4_file hs ms rest = Ok (et, ets, (shifted, ranges, ks, swm)) ->
+  lenN pre = rest + sumN (map stbl_var_size shifted) ->
+  lenN pre + mdat_out_hdr + 2 * total_bytes (map th_trak hs) < 18446744073709551616 ->
+  crop_mp4_output file zeof (C08Model.mdat_lazy startPos large payloadLen) pre ranges = Ok outf ->
+  exists ref hdr, ref_choice hs ref /\ ets = ti_ts ref /\ swm = lenN pre /\
+    first_sync_from (ti_tb ref) (u64 (ms * ti_ts ref) / 1000) et /\
+    outf = pre ++ hdr ++ out_bytes file ranges /\
+    hdr = C08Model.be32 (lenN (out_bytes file ranges) + 8) ++ C08Model.name_mdat /\
+    lenN (out_bytes file ranges) + 8 < 4294967296 /\
+    Forall2 (out_track file outf (lenN pre) (lenN (out_bytes file ranges)) et ets) (map th_trak hs) shifted.
+Proof.
+  intros Hwf Hd HB Hp Hf Hrun Hpre HB2 Hout.
+  apply (crop_end_to_end_gen file zeof (C08Model.mdat_lazy startPos large payloadLen) hs ms rest pre et ets shifted ranges ks swm outf Hwf Hd HB Hrun Hpre HB2); [|exact Hout].
+  intros Hall Hb mb Ew. exact (write_mdat_lazy_inv file zeof startPos large payloadLen ranges mb Hp Hf Hall Hb Ew).
+Qed.
+
+(* the input mdat decoded into memory (File.Mdat.Data): the same, when every byte range starts inside the input's payload *)
+Lemma write_mdat_mem_inv file zeof startPos large payloadLen rs :
+  C08Spec.box_in_file file startPos large payloadLen = true ->
+  Forall (range_in_mdat startPos large payloadLen) rs -> ranges_len rs + 8 < 18446744073709551616 ->
+  mdat_writes file zeof (C08Model.mdat_mem file startPos large payloadLen) rs.
+Proof.
+  intros Hb Hall Hlt mb H.
+  destruct (N.lt_ge_cases (ranges_len rs + 8) 4294967296) as [Lt|Ge].
+  - split; [exact Lt|]. destruct (write_mdat_mem_correct file zeof startPos large payloadLen rs Hb Hall Lt) as [A _].
+    rewrite A in H. injection H as <-. reflexivity.
+  - exfalso.
+    assert (Hall' : Forall (range_in file) rs).
+    { revert Hall. apply Forall_impl. intros r. apply range_in_mdat_file. exact Hb. }
+    pose proof Hb as Hb'. unfold C08Spec.box_in_file in Hb'.
+    unfold write_mdat in H. rewrite (ranges_size_sum file rs 0 Hall' ltac:(lia)) in H by lia. rewrite N.add_0_l in H.
+    rewrite (u64_small (ranges_len rs + 8)) in H by lia.
+    destruct (4294967296 <=? ranges_len rs + 8) eqn:E; [discriminate|lia].
+Qed.
+
+Lemma crop_end_to_end_mem file zeof startPos large payloadLen hs ms rest pre et ets shifted ranges ks swm outf :
+  Forall (trak_wf file) (map th_trak hs) -> distinct_ids hs ->
+  4611686018427387904 + 2 * total_bytes (map th_trak hs) < 18446744073709551616 ->
+  C08Spec.box_in_file file startPos large payloadLen = true ->
+  crop_mp4_file hs ms rest = Ok (et, ets, (shifted, ranges, ks, swm)) ->
+  Forall (range_in_mdat startPos large payloadLen) ranges ->
+  lenN pre = rest + sumN (map stbl_var_size shifted) ->
+  lenN pre + mdat_out_hdr + 2 * total_bytes (map th_trak hs) < 18446744073709551616 ->
+  crop_mp4_output file zeof (C08Model.mdat_mem file startPos large payloadLen) pre ranges = Ok outf ->
+  exists ref hdr, ref_choice hs ref /\ ets = ti_ts ref /\ swm = lenN pre /\
+    first_sync_from (ti_tb ref) (u64 (ms * ti_ts ref) / 1000) et /\
+    outf = pre ++ hdr ++ out_bytes file ranges /\
+    hdr = C08Model.be32 (lenN (out_bytes file ranges) + 8) ++ C08Model.name_mdat /\
+    lenN (out_bytes file ranges) + 8 < 4294967296 /\
+    Forall2 (out_track file outf (lenN pre) (lenN (out_bytes file ranges)) et ets) (map th_trak hs) shifted.
+Proof.
+  intros Hwf Hd HB Hb Hrun Hin Hpre HB2 Hout.
+  apply (crop_end_to_end_gen file zeof (C08Model.mdat_mem file startPos large payloadLen) hs ms rest pre et ets shifted ranges ks swm outf Hwf Hd HB Hrun Hpre HB2); [|exact Hout].
+  intros _ Hlt. exact (write_mdat_mem_inv file zeof startPos large payloadLen ranges Hb Hin Hlt).
 Qed.
